@@ -401,6 +401,6 @@ def _dispatch(sh):
 
 def replay(rec):
     print(json.dumps(rec, indent=1)[:2000])
-    ctx = core.Ctx('C19', 'quick', 0)
+    ctx = core.Ctx('C19', rec.get('tier', 'quick'), 0)
     run(ctx)
     return rec['key'] not in ctx._viol
